@@ -68,13 +68,20 @@ type scenario struct {
 	twcc   atomic.Uint32
 	lseq   [2]atomic.Uint32
 	rseq   [2]atomic.Uint32
+	endStamp  int64
+	hasBWE    bool
+	bubble    bool
+	kick      chan struct{}
+	fbRef     atomic.Uint32
+	callbacks atomic.Int64
+	lastRate  atomic.Int64
 	closed atomic.Bool
 	stream1Gone atomic.Bool
 }
 
 func buildScenario(c *vf.Case) (*scenario, bool) {
 	r := c.R
-	s := &scenario{c: c, clk: &obs.Clock{}}
+	s := &scenario{c: c, clk: &obs.Clock{}, kick: make(chan struct{}, 1)}
 	opts := zoo.Opts{FastTickers: true, SmallWindows: true, HighRates: true}
 	opts.Interval = time.Duration(r.Range(1, 5)) * time.Millisecond
 	nk := len(zoo.All)
@@ -110,6 +117,13 @@ func buildScenario(c *vf.Case) (*scenario, bool) {
 }
 
 func (s *scenario) bind() {
+	for _, b := range s.members {
+		if b.BWE != nil {
+			s.hasBWE = true
+			// applications register this callback; it is delivered from the estimator's goroutines
+			b.BWE.OnTargetBitrateChange(func(rate int) { s.callbacks.Add(1); s.lastRate.Store(int64(rate)) })
+		}
+	}
 	s.rtcpOut = obs.NewRTCPGate(s.clk)
 	s.rtcpIn = obs.NewFeed(s.clk)
 	s.rtcpIn.NoLog = true
@@ -154,6 +168,9 @@ func (s *scenario) writer(r *vf.Rand, st, n int, wg *sync.WaitGroup) {
 		if _, err := s.lw[st].Write(&h, payload, interceptor.Attributes{}); err == nil && !s.closed.Load() {
 			s.writes[st].Add(1)
 		}
+		if s.hasBWE && s.bubble && k%4 == 0 {
+			time.Sleep(time.Duration(r.Range(1, 10)) * time.Millisecond)
+		}
 		pause(r)
 	}
 }
@@ -182,6 +199,7 @@ func (s *scenario) reader(r *vf.Rand, st, n int, wg *sync.WaitGroup) {
 func (s *scenario) rtcpLoop(r *vf.Rand, n int, wg *sync.WaitGroup) {
 	defer wg.Done()
 	buf := make([]byte, 1500)
+	kickAt := r.Intn(max(1, n))
 	for k := 0; k < n; k++ {
 		var pkts []rtcp.Packet
 		ls := uint16(s.lseq[0].Load())
@@ -191,6 +209,29 @@ func (s *scenario) rtcpLoop(r *vf.Rand, n int, wg *sync.WaitGroup) {
 			pkts = append(pkts, &rtcp.TransportLayerNack{SenderSSRC: 9, MediaSSRC: 1000,
 				Nacks: []rtcp.NackPair{{PacketID: ls - uint16(r.Intn(6)), LostPackets: rtcp.PacketBitmap(r.Pick(0, 1, 5))}}})
 		case 1:
+			if s.hasBWE && r.Chance(0.7) {
+				// arrivals 10 ms apart for packets that left sub-millisecond apart: the delay based
+				// estimator sees a growing queue, changes its target and fires the callbacks
+				n := r.Range(5, 25)
+				t := &rtcp.TransportLayerCC{
+					Header:     rtcp.Header{Count: rtcp.FormatTCC, Type: rtcp.TypeTransportSpecificFeedback},
+					SenderSSRC: 9, MediaSSRC: 1000, BaseSequenceNumber: tw - uint16(n) + 1, PacketStatusCount: uint16(n),
+					ReferenceTime: uint32(s.fbRef.Add(uint32(n*10/64 + 1))), FbPktCount: uint8(k),
+					PacketChunks: []rtcp.PacketStatusChunk{&rtcp.RunLengthChunk{Type: rtcp.TypeTCCRunLengthChunk,
+						PacketStatusSymbol: rtcp.TypeTCCPacketReceivedSmallDelta, RunLength: uint16(n)}},
+				}
+				for i := 0; i < n; i++ {
+					t.RecvDeltas = append(t.RecvDeltas, &rtcp.RecvDelta{Type: rtcp.TypeTCCPacketReceivedSmallDelta, Delta: 10000})
+				}
+				l := 20 + 2 + n
+				if l%4 != 0 {
+					t.Header.Padding = true
+					l += 4 - l%4
+				}
+				t.Header.Length = uint16(l/4 - 1)
+				pkts = append(pkts, t)
+				break
+			}
 			recv := make([]bool, r.Range(1, 30))
 			for i := range recv {
 				recv[i] = r.Chance(0.9)
@@ -215,8 +256,20 @@ func (s *scenario) rtcpLoop(r *vf.Rand, n int, wg *sync.WaitGroup) {
 		}
 		s.rtcpIn.Push(obs.FeedItem{Data: raw})
 		_, _, _ = s.rtcpR.Read(buf, interceptor.Attributes{})
+		if k == kickAt {
+			// let the lifecycle goroutine Close right now, while the members' own goroutines are
+			// still digesting this feedback
+			select {
+			case s.kick <- struct{}{}:
+			default:
+			}
+		}
 		if r.Chance(0.3) {
 			_, _ = s.rtcpW.Write([]rtcp.Packet{&rtcp.PictureLossIndication{SenderSSRC: 0xA99, MediaSSRC: 3000}}, interceptor.Attributes{})
+		}
+		if s.hasBWE && s.bubble {
+			// the estimator's detectors work on elapsed time: give them (virtual) time between reports
+			time.Sleep(time.Duration(r.Range(5, 40)) * time.Millisecond)
 		}
 		pause(r)
 	}
@@ -272,7 +325,13 @@ func (s *scenario) lifecycle(r *vf.Rand, doClose bool, wg *sync.WaitGroup) {
 		s.i.UnbindRemoteStream(s.rinfo[1])
 	}
 	if doClose {
-		time.Sleep(time.Duration(r.Range(50, 500)) * time.Microsecond)
+		select {
+		case <-s.kick:
+		case <-time.After(time.Duration(r.Range(50, 500)) * time.Microsecond):
+			if r.Bool() {
+				<-s.kick // wait for a feedback read instead (every RTCP loop kicks once)
+			}
+		}
 		s.closed.Store(true)
 		_ = s.i.Close()
 	}
@@ -309,6 +368,7 @@ func run(c *vf.Case) {
 		if !ok {
 			return
 		}
+		s.bubble = bubble
 		s.bind()
 		if bubble {
 			synctest.Wait()
@@ -316,13 +376,27 @@ func run(c *vf.Case) {
 			time.Sleep(2 * time.Millisecond) // stats recorders start asynchronously
 		}
 		doClose := c.R.Chance(0.5)
+		if bubble && s.hasBWE && len(s.members) == 1 && c.R.Bool() {
+			s.bweCloseOverlap(c.R)
+			c.Add("scenarios_bwe_close_overlapping_rate_update", 1)
+			c.Add("bwe_target_bitrate_callbacks", s.callbacks.Load())
+			if s.callbacks.Load() > 0 {
+				c.Nontrivial(vf.NewHash().Str(s.desc).U64(uint64(s.callbacks.Load())).U64(uint64(s.lastRate.Load())).Sum())
+			}
+			return
+		}
 		n := s.drive(doClose)
-		// conservation: let one more tick pass, then compare
+		// conservation: let one more tick pass, then compare. Only reports written AFTER the
+		// traffic ended (logical stamp) are evidence; in real time the ticker goroutine may be late
+		// on a loaded machine, so wait for such a report instead of trusting a fixed sleep.
+		s.endStamp = s.clk.Tick()
 		if bubble {
 			time.Sleep(30 * time.Millisecond)
 			synctest.Wait()
 		} else {
-			time.Sleep(15 * time.Millisecond)
+			for i := 0; i < 200 && !doClose && !s.reportAfterEnd(); i++ {
+				time.Sleep(10 * time.Millisecond)
+			}
 		}
 		if !doClose {
 			s.checkConservation()
@@ -332,6 +406,7 @@ func run(c *vf.Case) {
 			synctest.Wait()
 		}
 		c.Add("goroutines_driven", int64(n))
+		c.Add("bwe_target_bitrate_callbacks", s.callbacks.Load())
 		c.Add("downstream_rtp_writes_observed", s.lgate[0].Count.Load()+s.lgate[1].Count.Load())
 		c.Add("rtcp_writes_observed", s.rtcpOut.Count.Load())
 		c.Add("scenarios_"+map[bool]string{true: "virtual_time", false: "real_time"}[bubble], 1)
@@ -387,6 +462,9 @@ func (s *scenario) checkConservation() {
 			want := s.writes[0].Load()
 			var got int64 = -1
 			for _, ev := range s.rtcpOut.Events() {
+				if ev.Stamp <= s.endStamp {
+					continue // written while the writers were still running
+				}
 				for _, p := range ev.Pkts {
 					if sr, ok := p.(*rtcp.SenderReport); ok && sr.SSRC == 1000 {
 						got = int64(sr.PacketCount)
@@ -423,3 +501,113 @@ func (s *scenario) checkConservation() {
 }
 
 var _ = fmt.Sprintf
+
+// bweCloseOverlap: a sender paced in virtual time whose TWCC feedback alternates between
+// "arrivals as spaced as departures" and "arrivals twice as far apart" so that the estimator
+// changes its target at almost every report; then, at a PRNG-chosen report, Close runs
+// concurrently with the RTCP read that hands that report to the estimator's pipeline, with a
+// statistics observer and a writer still running.
+func (s *scenario) bweCloseOverlap(r *vf.Rand) {
+	buf := make([]byte, 1500)
+	payload := r.Bytes(100)
+	reports := r.Range(8, 40)
+	var arrival int64 // µs
+	ref := uint32(1)
+	feedback := func(first uint16, n int, spacingUS int64) []byte {
+		t := &rtcp.TransportLayerCC{
+			Header:     rtcp.Header{Count: rtcp.FormatTCC, Type: rtcp.TypeTransportSpecificFeedback},
+			SenderSSRC: 9, MediaSSRC: 1000, BaseSequenceNumber: first, PacketStatusCount: uint16(n),
+			ReferenceTime: ref, FbPktCount: uint8(ref),
+			PacketChunks: []rtcp.PacketStatusChunk{&rtcp.RunLengthChunk{Type: rtcp.TypeTCCRunLengthChunk,
+				PacketStatusSymbol: rtcp.TypeTCCPacketReceivedSmallDelta, RunLength: uint16(n)}},
+		}
+		for i := 0; i < n; i++ {
+			t.RecvDeltas = append(t.RecvDeltas, &rtcp.RecvDelta{Type: rtcp.TypeTCCPacketReceivedSmallDelta, Delta: spacingUS})
+			arrival += spacingUS
+		}
+		ref = uint32(arrival/64000) + 1
+		l := 20 + 2 + n
+		if l%4 != 0 {
+			t.Header.Padding = true
+			l += 4 - l%4
+		}
+		t.Header.Length = uint16(l/4 - 1)
+		raw, _ := t.Marshal()
+		return raw
+	}
+	send := func() uint16 {
+		tw := uint16(s.twcc.Add(1))
+		h := rtp.Header{Version: 2, PayloadType: 96, SequenceNumber: uint16(s.lseq[0].Add(1)), SSRC: 1000}
+		ext, _ := (&rtp.TransportCCExtension{TransportSequence: tw}).Marshal()
+		_ = h.SetExtension(twccID, ext)
+		_, _ = s.lw[0].Write(&h, payload, interceptor.Attributes{})
+		return tw
+	}
+	for k := 0; k < reports; k++ {
+		first := uint16(0)
+		for i := 0; i < 10; i++ {
+			tw := send()
+			if i == 0 {
+				first = tw
+			}
+			time.Sleep(5 * time.Millisecond)
+		}
+		spacing := int64(5000)
+		if (k/3)%2 == 1 {
+			spacing = 12000 // a queue builds up: overuse
+		}
+		raw := feedback(first, 10, spacing)
+		s.rtcpIn.Push(obs.FeedItem{Data: raw})
+		if k < reports-1 {
+			_, _, _ = s.rtcpR.Read(buf, interceptor.Attributes{})
+			continue
+		}
+		// the last report: read, Close, a getter and one more write all overlap
+		var wg sync.WaitGroup
+		wg.Add(4)
+		go func() { defer wg.Done(); _, _, _ = s.rtcpR.Read(buf, interceptor.Attributes{}) }()
+		go func() {
+			defer wg.Done()
+			for i := r.Intn(4); i > 0; i-- {
+				runtime.Gosched()
+			}
+			s.closed.Store(true)
+			_ = s.i.Close()
+		}()
+		go func() {
+			defer wg.Done()
+			for _, b := range s.members {
+				if b.BWE != nil {
+					_ = b.BWE.GetTargetBitrate()
+					_ = b.BWE.GetStats()
+				}
+			}
+		}()
+		go func() { defer wg.Done(); send() }()
+		wg.Wait()
+	}
+	synctest.Wait()
+}
+
+// reportAfterEnd tells whether a sender report for stream 0 was written after the traffic ended.
+func (s *scenario) reportAfterEnd() bool {
+	hasSender := false
+	for _, b := range s.members {
+		if b.Kind == zoo.ReportSender {
+			hasSender = true
+		}
+	}
+	if !hasSender {
+		return true
+	}
+	for _, ev := range s.rtcpOut.Events() {
+		if ev.Stamp > s.endStamp {
+			for _, p := range ev.Pkts {
+				if sr, ok := p.(*rtcp.SenderReport); ok && sr.SSRC == 1000 {
+					return true
+				}
+			}
+		}
+	}
+	return false
+}
